@@ -121,7 +121,7 @@ def run_property(pid, tier, seed, only=None):
     # obligations expected to hold on this tree = all generated obligations minus the open known findings
     n_obl = len(obls) - sum(1 for r in known_hit if r.kind not in ("canary", "bounded"))
     n_dis = sum(1 for r in obls if r.verdict == "proved")
-    few = n_obl < expected.get(pid, 1)
+    few = (not only) and n_obl < expected.get(pid, 1)
 
     wall = time.time() - t_start
     ev = {
